@@ -777,6 +777,90 @@ class Gen(object):
         for v in variants:
             self.features.add('array_family:' + (v or 'bare'))
 
+    def _padded(self, stem, extra):
+        """a C identifier `stem` lengthened by `extra` characters"""
+        pad = 'abcdefghijklmnopqrstuvwxyz'
+        return stem + ('_' + pad[:extra - 1] if extra > 0 else '')
+
+    def gen_copyfree_family(self):
+        """records / unions (opaque, 0-3 fields, boxed or plain) annotated (copy-func) / (free-func) in every combination,
+        the two names of equal and of different lengths (1..12 characters either way), the named functions being
+        introspectable methods of the record, (skip)ped, or plain functions elsewhere (so that the names are — or are
+        not — already in the typelib's string pool when the compiler reserves room for them)"""
+        r = self.rng
+        for _ in range(r.randint(1, 4)):
+            kind = r.choice(['struct', 'struct', 'struct', 'union'])
+            name = self.uid('Tok' if kind == 'struct' else 'Var')
+            cname = self.idp + name
+            lower = name.lower()
+            tag = '_' + cname
+            nfields = r.choice([0, 0, 1, 2, 3])
+            if kind == 'union':
+                nfields = max(nfields, 1)
+            fields = [{'name': 'v%d' % i, 'type': T(r.choice(['int', 'double', 'gpointer', 'guint8']))} for i in range(nfields)]
+            if nfields == 0 and self.p(0.6):
+                self.add({'d': 'typedef', 'name': cname, 'type': {'k': 'struct', 'n': tag}})       # opaque
+                self.features.add('copyfree:opaque')
+            else:
+                self.add({'d': kind, 'name': tag, 'fields': fields})
+                self.add({'d': 'typedef', 'name': cname, 'type': {'k': kind, 'n': tag}})
+            self.features.add('copyfree:fields=%d' % nfields)
+            combo = r.choice(['none', 'copy', 'free', 'both', 'both', 'both'])
+            where = r.choice(['method', 'skipped', 'elsewhere', 'mixed'])
+            delta = r.choice([0, 0] + list(range(1, 13)))
+            longer = r.choice(['copy', 'free'])
+            stem = ('%s_%s' % (self.symp, lower)) if where in ('method', 'skipped', 'mixed') else ('%s_util_%s' % (self.symp, lower))
+            copy = self._padded(stem + '_dup', delta if longer == 'copy' else 0)
+            free = self._padded(stem + '_rel', delta if longer == 'free' else 0)
+            ann = []
+            if combo in ('copy', 'both'):
+                ann.append('(copy-func %s)' % copy)
+            if combo in ('free', 'both'):
+                ann.append('(free-func %s)' % free)
+            self.block(cname, desc='A token.', ann=' '.join(ann))
+            self.features.add('copyfree:%s' % combo)
+            self.features.add('copyfree:where=%s' % where)
+            self.features.add('copyfree:delta=%s%d' % ('+' if longer == 'free' else '-', delta) if delta else 'copyfree:delta=0')
+            declare = self.p(0.85)      # the annotation may also name a function the header does not declare
+            if declare:
+                sk_copy = where == 'skipped' or (where == 'mixed' and self.p(0.5))
+                sk_free = where == 'skipped' or (where == 'mixed' and not sk_copy)
+                if combo in ('copy', 'both') or self.p(0.3):
+                    self.add({'d': 'function', 'name': copy, 'ret': P(T(cname)), 'params': [{'name': 'self', 'type': P(T(cname))}]})
+                    self.block(copy, params=[('self', '', 'it')], desc='Copies.', tags=[('Returns', '(transfer full): a copy')],
+                               ann='(skip)' if sk_copy else '')
+                if combo in ('free', 'both') or self.p(0.3):
+                    self.add({'d': 'function', 'name': free, 'ret': T('void'), 'params': [{'name': 'self', 'type': P(T(cname))}]})
+                    self.block(free, params=[('self', '', 'it')], desc='Frees.', ann='(skip)' if sk_free else '')
+            for _k in range(r.choice([0, 0, 1, 2])):
+                self.gen_function(owner=(cname, lower, kind), force_kind=r.choice(['method', 'static', 'constructor']))
+            if self.p(0.3) and kind == 'struct':
+                sym = '%s_%s_get_type' % (self.symp, lower)
+                self.add({'d': 'function', 'name': sym, 'ret': T('GType'), 'params': []})
+                self.dump.append('<boxed name="%s" get-type="%s"/>' % (cname, sym))
+                self.features.add('copyfree:boxed')
+            self.records.append((cname, kind))
+        self.features.add('copyfree')
+
+    def class_value_funcs(self, cname, lower):
+        """(ref-func) / (unref-func) / (set-value-func) / (get-value-func) of a class, names of different lengths, the
+        functions declared as methods, skipped, or not at all -> annotation text"""
+        r = self.rng
+        ann = []
+        for key, stem in (('ref-func', 'ref'), ('unref-func', 'unref'), ('set-value-func', 'value_set'), ('get-value-func', 'value_get')):
+            if not self.p(0.6):
+                continue
+            fname = self._padded('%s_%s_%s' % (self.symp, lower, stem), r.choice([0, 0, 1, 2, 3, 5, 8, 12]))
+            ann.append('(%s %s)' % (key, fname))
+            how = r.choice(['method', 'skipped', 'absent'])
+            if how != 'absent' and stem in ('ref', 'unref'):
+                ret = P(T(cname)) if stem == 'ref' else T('void')
+                self.add({'d': 'function', 'name': fname, 'ret': ret, 'params': [{'name': 'self', 'type': P(T(cname))}]})
+                self.block(fname, params=[('self', '', 'it')], desc='%s.' % stem, ann='(skip)' if how == 'skipped' else '',
+                           tags=[('Returns', '(transfer full): it')] if stem == 'ref' else [])
+            self.features.add('class_funcs:%s:%s' % (key, how))
+        return ' '.join(ann)
+
     def gen_late_callback_family(self):
         """compounds with NON-anonymous fields typed by named callback typedefs and alias chains over them, where the
         callback only turns out non-introspectable late in IntrospectablePass (fixed-point loop / parameter analysis
@@ -1020,8 +1104,9 @@ class Gen(object):
         final = ' final="1"' if (not abstract and self.p(0.15)) else ''
         self.dump.append('<class name="%s" get-type="%s" parents="%s"%s%s>%s%s</class>' % (
             cname, gt, chain, abstract, final, impl, ''.join(parts)))
-        if self.p(0.5):
-            self.block(cname, desc=self.doc_text(), tags=self.std_tags(), ann=self.node_ann())
+        vf_ann = self.class_value_funcs(cname, lower) if self.p(0.35) else ''
+        if vf_ann or self.p(0.5):
+            self.block(cname, desc=self.doc_text(), tags=self.std_tags(), ann=(self.node_ann() + ' ' + vf_ann).strip())
         return cname
 
     def gen_interface(self):
@@ -1099,6 +1184,8 @@ class Gen(object):
             self.gen_array_family()
         if self.p(0.45) or self.boost.get('late_callback'):
             self.gen_late_callback_family()
+        if self.p(0.5) or self.boost.get('copyfree'):
+            self.gen_copyfree_family()
         if self.uses_gio and self.p(0.8):
             self.add({'d': 'function', 'name': '%s_do_async' % self.symp, 'ret': T('void'),
                       'params': [{'name': 'cancellable', 'type': P(T('GCancellable'))},
@@ -1714,6 +1801,9 @@ def compare(gir_root, tl):
             d.flag('class:final', path, b(e, 'final'), a.get('final'))
             d.flag('class:glib:fundamental', path, b(e, qn('glib:fundamental')), a.get('fundamental'))
             d.flag('class:glib:type-struct', path, e.get(qn('glib:type-struct')), a.get('class_struct'))
+            for attr, k in (('glib:ref-func', 'ref_function'), ('glib:unref-func', 'unref_function'),
+                            ('glib:set-value-func', 'set_value_function'), ('glib:get-value-func', 'get_value_function')):
+                d.flag('class:%s' % attr, path, e.get(qn(attr)), a.get(k))
             d.flag('class:implements', path, sorted(qualify(ns, c.get('name')) for c in kids(e, 'implements')),
                    sorted(a.get('interfaces', [])))
             cmp_fields(d, path, e, a, 'class')
@@ -1807,6 +1897,10 @@ def classify_compiler(rc, err, root, state_names):
             out.append(('compiler:fatal:accessor-of-introspectable-0-property', 'g-ir-compiler dies: ' + err[-300:]))
         else:
             out.append(('compiler:fatal:unknown-property-for-accessor', 'g-ir-compiler dies: ' + err[-300:]))
+    elif rc != 0 and re.search(r'left a hole of \d+ bytes', err):
+        out.append(('compiler:abort:left-a-hole', 'g-ir-compiler aborts after building the typelib: ' + err[-300:]))
+    elif isinstance(rc, int) and rc == -11:
+        out.append(('compiler:crash:SIGSEGV', 'g-ir-compiler dies with SIGSEGV: ' + err[-300:]))
     elif rc != 0 and re.search(r"Can't resolve type '([^']+)' for field (\S+)", err):
         m = re.search(r"Can't resolve type '([^']+)' for field (\S+)", err)
         tn = m.group(1).split('.')[-1]
@@ -2343,9 +2437,9 @@ def run(ctx):
             cnt.hit('corpus:finding-%s' % ('reproduced' if any(k == r['finding'] for k, _ in probs) else 'NOT-reproduced:' + r['finding']))
 
     # ---- failing-input search around new failures: shrink the description while the failure persists
-    budget = [ctx.n(60, 400)]
     for key, what, r in new_failures[:6]:
         small = r
+        budget = [ctx.n(90, 400)]          # scanner + compiler runs spent on shrinking this one failure
         if r.get('cfg') is not None and budget[0] > 0:
             try:
                 small = shrink_cfg(env, r, key, state_names, budget)
